@@ -26,7 +26,9 @@ BUILDS = {"h": ("sql", "./cmd/verif_c35", ["C35"]),
           "hr": ("sql", "./cmd/verif_c35", ["C35"], {"race": True})}     # same harness under the race detector
 ENGINES = ["lean-kafverif", "go-overlay-harness", "ast-extract"]
 TECHNIQUE = ("Lean 4 totality proof over a byte-level model of parser.go (every slice expression with Go's bounds rule) "
-             "+ Go/Lean differential correspondence of the parsed fields + crash and keyword-case monitors on the real Parse")
+             "+ Go/Lean differential correspondence of the parsed fields and of the statement-wide lowering (lowerASCII vs asciiLower) "
+             "+ crash and keyword-case monitors on the real Parse + concurrent cold-start runs in child processes (plain and -race) "
+             "+ tables regenerated from the source (slice provenance, package-level variables)")
 LEVEL_TEXT = ("proof: slices_in_range / parse_never_panics — for every byte string and every byte-length-preserving "
               "lowering no slice expression of the modelled parser is out of range (includes the argument that `from` "
               "cannot be found inside `select`, so raw[selectIdx+6:fromIdx] has low <= high); asciiLower_length; "
@@ -35,6 +37,11 @@ LEVEL_TEXT = ("proof: slices_in_range / parse_never_panics — for every byte st
               "parse to the same outcome with equal type, topics, aliases, join sides, filters, GROUP/ORDER BY, LIMIT and "
               "window tokens, column texts and JSON paths equal modulo ASCII case (every string operation of the model is shown "
               "to commute with the lowering). "
+              "asciiLower_pointwise / lowerB_spec / asciiLower_context_free / keyword_lowered_in_place — the lowering is a byte map: "
+              "a keyword typed in any case is lowered in place whatever bytes (non-ASCII runes, ill-formed UTF-8) stand next to it; "
+              "the real lowerASCII is compared with it on every keyword with every non-ASCII sequence at every position. "
+              "no_package_level_mutable_state (regenerated) — no package-level variable of internal/sql is written or aliased by a "
+              "function body without a lock (Parse runs on one goroutine per connection). "
               "The model is tied to the source by diffing, for generated and arbitrary query texts, the parsed fields "
               "(type, topics, aliases, join condition, column texts, group/order/limit/filters/window tokens) of the "
               "real sql.Parse against the model.")
@@ -44,8 +51,14 @@ LEVEL_NOTE = ("case_insensitive_partial is 'partial' because SelectColumn.Raw (u
               "field of Query between keyword-case variants (Raw modulo case). parseTSFilters/time.Parse, splitAlias and the aggregate/JSON column classification "
               "are regex/stdlib code outside the model; they contain no slice or index expression. Unicode white space, "
               "upper-case non-ASCII letters, U+212A/U+017F and ill-formed UTF-8 are outside the correspondence domain "
-              "(local strings.ToLower calls are modelled by the ASCII lowering) and are covered by the crash monitor only.")
+              "(local strings.ToLower calls are modelled by the ASCII lowering) and are covered by the crash monitor and the "
+              "keyword-case monitor (Unicode spaces / runes / ill-formed bytes directly before every keyword) only. "
+              "Concurrency: the package-variable table is syntactic (go/ast: writes through method calls on a package-level struct "
+              "value, or state behind an imported package, are not seen; 'guarded' = the enclosing function calls .Lock()/.RLock()); "
+              "the cold-start runs (fatal error = child exit status) and the -race build are tests of schedules, not a proof.")
 ASSUMPTIONS = [
+    "goroutine safety of sql.Parse is established syntactically (no written, lock-less package-level variable in internal/sql) and by "
+    "the race detector on concurrent cold starts; *regexp.Regexp values are safe for concurrent use (documented)",
     "regexp (RE2) never panics and implements leftmost-first matching; `(?i)\\bkw\\b` is modelled as the first ASCII-case-insensitive occurrence between non-word bytes",
     "strings.TrimSpace/Fields are modelled on ASCII white space; strconv.ParseInt on optional sign + decimal digits with range check",
 ]
@@ -625,7 +638,7 @@ def concurrent_monitor(ck, bins, qs, quick, plan=None):
     built with -race: a race report with a frame in internal/sql is a violation as well."""
     fn = ck.path("ops_conc.txt")
     open(fn, "w").write("".join("p %s\n" % lib.hexs(q) for q in qs))
-    plan = plan or {"cold_starts": 30 if quick else 200, "goroutines": 64, "per_goroutine": 3,
+    plan = plan or {"cold_starts": 16 if quick else 200, "goroutines": 32, "per_goroutine": 3,
                     "race_cold_starts": 2 if quick else 8, "race_goroutines": 8, "race_per_goroutine": 12 if quick else 60}
     rep = {"queries_hex": [q.hex() for q in qs], "concurrent": plan}
 
@@ -684,8 +697,11 @@ def run(ck):
     n_valid = 1500 if quick else 15000
     ck.cov["rule"] = ("query texts from a grammar of the supported statements (random keyword case, ASCII white space incl. "
                       "\\v \\f, identifiers with caseless non-ASCII runes, numeric boundary values), byte-level mutations of "
-                      "them, and a hostile stream (length-changing runes, Unicode spaces, ill-formed UTF-8); non-trivial = "
-                      "Parse returned a query; distinct = distinct texts")
+                      "them, a hostile stream (length-changing runes, Unicode spaces, ill-formed UTF-8), keyword-case groups with "
+                      "every Unicode space / rune / ill-formed sequence directly before every keyword, lowerASCII inputs (every "
+                      "keyword x every position x every non-ASCII sequence, every non-ASCII byte before every letter), and "
+                      "concurrent cold starts of N goroutines in child processes; non-trivial = Parse returned a query (lowering: "
+                      "some byte changes); distinct = distinct texts")
     rng = ck.rng
     corr, variants, hostile = [], [], []
     corr += [b"SELECT \xc8\xba\xc8\xba\xc8\xba\xc8\xba\xc8\xba\xc8\xba\xc8\xba\xc8\xba FROM t", b"", b";", b" ; ",
@@ -743,6 +759,20 @@ def run(ck):
         return
     impl = [split_out(l) for l in lines]
     ck.log("implementation answered %d statements" % len(allq))
+    # the model answers the in-domain statements in the background while the monitors run
+    import threading
+    idx = [i for i, q in enumerate(allq) if in_domain(q)]
+    mfn = ck.path("model_in.txt")
+    open(mfn, "w").write("".join("p %s\n" % lib.hexs(allq[i]) for i in idx))
+    mres = {}
+
+    def model_job():
+        try:
+            mres["lines"] = ck.lean_run("C35", mfn)
+        except Exception as e:      # re-raised below
+            mres["error"] = e
+    mthread = threading.Thread(target=model_job, daemon=True)
+    mthread.start()
     # ---- monitor 1: never crashes
     for q, (c, _) in zip(allq, impl):
         ck.count({"panic": "panic", "err": "err"}.get(c, "ok"))
@@ -811,12 +841,11 @@ def run(ck):
                 break
     ck.count("case_variant_groups", len(groups))
     # ---- correspondence with the model
-    idx = [i for i, q in enumerate(allq) if in_domain(q)]
-    mfn = ck.path("model_in.txt")
-    open(mfn, "w").write("".join("p %s\n" % lib.hexs(allq[i]) for i in idx))
-    ck.log("model: %d statements in domain" % len(idx))
-    model = ck.lean_run("C35", mfn)
-    ck.log("model answered")
+    mthread.join()
+    if "error" in mres:
+        raise mres["error"]
+    model = mres["lines"]
+    ck.log("model answered %d statements in its domain" % len(idx))
     if len(model) != len(idx):
         ck.broke("model driver did not answer every line", "%d/%d" % (len(model), len(idx)))
         return
